@@ -20,6 +20,9 @@ type CommandCfg struct {
 	Query   string   `json:"query,omitempty"`
 	Format  string   `json:"format,omitempty"`
 	Faults  []string `json:"faults,omitempty"` // which structural faults were applied (informational)
+	// Via: "" = the library calls the command makes, made by the harness;
+	// "cli" = the code of the command itself (engine_cli.go)
+	Via string `json:"via,omitempty"`
 }
 
 var exampleQueries = []string{
@@ -231,6 +234,9 @@ func genCommandCase(prop, tier string, r *rand.Rand) *Case {
 			}
 		}
 	}
+	if r.IntN(3) == 0 {
+		cmd.Via = "cli"
+	}
 	c.History = nil
 	c.Command = cmd
 	return c
@@ -250,6 +256,36 @@ func runCommandCase(t *testing.T, c *Case) *CaseResult {
 		cr.NonTrivial = true
 	}
 	cr.Probes["command="+cmd.Command]++
+	if cmd.Via == "cli" {
+		var args []string
+		what := "gedcom " + cmd.Command
+		switch cmd.Command {
+		case "publish":
+			args = publishArgs(c.Publish)
+			what += " " + c.Publish.Options.Visibility
+			cr.Probes["visibility="+c.Publish.Options.Visibility]++
+		case "diff":
+			args = diffArgs(c.Compare)
+		case "warnings":
+			args = []string{"warnings", "$0"}
+		default:
+			args = []string{"query", "-gedcom", "$0"}
+			if len(c.Docs) > 1 {
+				args = append(args, "-gedcom", "$1")
+				cr.Probes["query=merge"]++
+			}
+			args = append(args, "-format", cmd.Format, cmd.Query)
+		}
+		run, ok := runCLI(t, cr, prop, c.Docs, args, c.Sim, c.Today)
+		if !ok {
+			return cr
+		}
+		cr.Valid = true
+		cr.Recorded = &run.res.Recorded
+		cr.Probes["via=cli"]++
+		cliOutcome(cr, prop, run, what)
+		return cr
+	}
 	switch cmd.Command {
 	case "publish":
 		run, ok := runPublish(t, cr, prop, c.Docs[0], c.Publish.Options, c.Publish.Jobs, c.Sim, c.Today, nil)
